@@ -331,6 +331,9 @@ func (a *admit) judge(tlsOn bool, name string, alts []trSpec, mode string, res *
 		}
 	}
 	a.outcomes[fmt.Sprintf("admission/%s/chose-%s", name, got)] = true
+	if len(a.out.Samples) == 0 && len(alts) > 1 {
+		a.out.Samples = append(a.out.Samples, map[string]any{"part": "C", "row": name, "status": status, "server_chose": got.String()})
+	}
 }
 
 // ---------------------------------------------------------------- the real client against both kinds of server
